@@ -175,7 +175,8 @@ def cases(tier, seed):
             m = max(1, min(m, int(math.floor((R - inner0) / step + 1e-9))))
             a = int(r.integers(0, m))
             b = int(r.integers(a + 1, m + 1))
-            default_outer = bool(r.random() < 0.2) and cov["rkind"] == "cutoff"
+            # the default outer angle is floor(min cutoff angle): only a valid detector if at least one bin fits below it
+            default_outer = bool(r.random() < 0.2) and cov["rkind"] == "cutoff" and inner0 + step <= math.floor(R)
             yield dict(clause="flex", wave=wave, step=step, inner0=inner0, m=m, a=a, b=b, default_outer=default_outer)
         # the documented default (step 1, inner 0) and a hand-picked literal case per repetition
         r = rng_for(seed, "c12-fixed", rep)
@@ -351,6 +352,12 @@ def run_case(case):
         step, inner0 = case["step"], case["inner0"]
         outer0 = None if case["default_outer"] else round(inner0 + case["m"] * step, 6)
         det = FlexibleAnnularDetector(step_size=step, inner=inner0, outer=outer0)
+        if case["default_outer"] and inner0 + step > math.floor(min(w.cutoff_angles)) + 1e-9:
+            # the documented default outer angle, floor(min cutoff angle), leaves no room for a single bin above `inner`:
+            # not a valid detector for these waves (abTEM raises "number of bins must be greater than zero")
+            return [Res("C12/FlexibleAnnularDetector/bins-cover-stated-range", True,
+                        f"precondition not met: inner {inner0} + step {step} exceeds the default outer angle "
+                        f"{math.floor(min(w.cutoff_angles))}", False)]
         F = det.detect(w)
         Fa = _np(F).astype(np.float64)
         rad = F.axes_metadata[-2]
